@@ -390,14 +390,15 @@ wrapint wrapint::lshr(wrapint x) const {
 // arithmetic right shift
 wrapint wrapint::ashr(wrapint x) const {
   sanity_check_bitwidths(x);
-  if (!msb()) {
+  if (!msb() || x._n == 0) {
     return wrapint(_n >> x._n, _width, _mod);
   } else {
     // fill blanks with 1's
     uint64_t all_ones =
         (_width < 64 ? ((uint64_t)1 << (uint64_t)_width) - 1 : UINT64_MAX);
-    // 1110..0
-    uint64_t only_upper_bits_ones = all_ones << (uint64_t)(_width - x._n);
+    // 1110..0 (the bits above _width must remain zero)
+    uint64_t only_upper_bits_ones =
+        (all_ones << (uint64_t)(_width - x._n)) & all_ones;
     return wrapint(only_upper_bits_ones | (_n >> x._n), _width, _mod);
   }
 }
